@@ -22,6 +22,13 @@ add("C18", "reference-function runtime monitor over exhaustive integer windows a
     "Runtime exploration: per filter the integer-argument windows of DESIGN.md appendix A are enumerated completely (slice bounds, widths, digits, floatformat arguments, widthratio operands) and random texts/numbers/sequences are added; every result is compared with a small independent reference function. Held = no deviation on the applications observed.",
     "Trusts the reference functions (written from Django 1.7's documentation and the repository's pinned fixtures); inputs outside the judged domains of appendix A are not generated or counted as unjudged.")
 
+add("C15", "metamorphic runtime monitor: marked document under options vs hand-stripped document under defaults vs output computed from the generator's structure; sibling templates in one set; repeated renders",
+    "Runtime exploration: random documents with random whitespace runs and every subset of '-' markers are rendered under all four TrimBlocks x LStripBlocks settings (twice per compiled template, options set on the set or on one template of a shared set) and compared byte for byte with the hand-stripped source's rendering and with the directly computed expected output; spaceless bodies are compared with an independent whitespace-between-tags remover. Held = no deviation on the executions observed.",
+    "Trusts the generator's own structure for hand-stripping (no parsing). Verbatim adjacency and comments directly next to a delimiter are not generated (unspecified by the property).")
+add("C16", "runtime monitor over the lexer hook (exhaustive block sequences) and over structured *Error fields of deliberately broken programs; metamorphic shift relation",
+    "Runtime exploration: all sequences of up to 5/6 lexer-significant blocks are lexed through the verif hook and every token position is checked against the source (exhaustive for that sub-space); 42 kinds of broken programs in random layouts and file-composition routes are compiled/executed and the error's Filename/Line/Column/Token are checked against the named source; inserted text must shift positions exactly. Held = no deviation on the executions observed (one known finding is listed in KNOWN_FINDINGS.txt).",
+    "Trusts the position-to-offset mapping of the harness (byte or rune columns accepted). Errors of sender 'fromfile' are checked against the referring template (known finding quarantine).")
+
 ALL = ["C%02d" % i for i in range(1, 21)]
 NOT_YET = {}
 
